@@ -169,10 +169,11 @@ func init() {
 			three := samplePaths(pathsWith(sp, func(p Path) bool { return nSteps(p) == 3 }), tierN(tier, 250, 3000), rng)
 			fl := samplePaths(filterPaths(tier, rng), tierN(tier, 350, 5000), rng)
 			fn := samplePaths(funcPaths(tier, rng), tierN(tier, 200, 3000), rng)
-			ps := dedupPaths(append(append(append(append(append(one2, three...), fl...), fn...), widePaths()...), holeSlicePaths()[:3]...))
+			ps := dedupPaths(append(append(append(append(append(one2, three...), fl...), fn...), widePaths()...), append(holeSlicePaths()[:3], nestedFilterPaths()...)...))
 			jobs := evalJobs("c01", ps, "C01", tier, false, false)
 			// json.Number decoding on a sample
 			jobs = append(jobs, evalJobs("c01n", samplePaths(ps, tierN(tier, 150, 2000), rng), "C01", tier, false, true)...)
+			jobs = append(jobs, wideDocJobs("c01wide", tier, rng)...)
 			return jobs
 		},
 		Bounds:       evalBounds,
